@@ -23,5 +23,14 @@ static void str_add_str(struct Str *a, struct Str *b, struct Str *r);
 #define X_op_add__basic_string_char_std_char_traits_char_std_allocator_char_rref_basic_string_char_std_char_traits_char_std_allocator_char_ref str_add_str
 #define X_op_add__basic_string_char_std_char_traits_char_std_allocator_char_ref_basic_string_char_std_char_traits_char_std_allocator_char_ref str_add_str
 static int X_chdir__char_ptr(const char *c);
+static _Bool Path__exists(struct Path *p);
+static struct DIR *X_opendir__char_ptr(const char *c);
+static struct dirent *X_readdir__DIR_ptr(struct DIR *d);
+static int X_closedir__DIR_ptr(struct DIR *d);
+static int X_strcmp__char_ptr_char_ptr(const char *a, const char *b);
+static void PathList__ctor_default(struct PathList *l);
+static void PathList__ctor_move(struct PathList *l, struct PathList *o);
+static void PathList__dtor(struct PathList *l);
+static struct Path *PathList__emplace_front(struct PathList *l, char **name);
 static char *X_getcwd__char_ptr_size_t(char *buf, size_t n);
 #endif
